@@ -393,6 +393,10 @@ def simplify_unitary(expr: e.Expr, t_name: str,
                 delta = KroneckerDelta(idx1[0], idx2[0])
             else:  # no matching indices
                 continue
+            # both indices are shared and occur nowhere else: the delta
+            # would be 1 and the remaining index (and its sum) would be lost
+            if idx1 == idx2 and all(idx_counter[s] == 2 for s in idx1):
+                continue
 
             # lower the exponent of the 2 unitary tensors and
             # add the created delta to the term
